@@ -49,6 +49,19 @@ NLw(tr) == Len(tr.lw)
 (***************************************************************************)
 (* Constructor observation (C05 naming, C20 initial state)                 *)
 (***************************************************************************)
+(***************************************************************************)
+(* Observation must not matter: the same program run on fresh objects      *)
+(* without a single look at the labware until the last operation returned  *)
+(* ends in the state that the observed run ends in.                        *)
+(***************************************************************************)
+JudgeUnobserved(tr) ==
+  LET b == tr.blind IN {
+    Cl("C04.unobserved", b.has, b.unseen.vol = b.seen.vol),
+    Cl("C05.unobserved", b.has /\ tr.flags.comp, b.unseen.comp = b.seen.comp),
+    Cl("C11.unobserved", b.has, b.unseen.hn = b.seen.hn /\ b.unseen.last = b.seen.last),
+    Cl("C01.unobserved", b.has, b.unseen.wl = b.seen.wl)
+  }
+
 JudgeInit(tr) ==
   \* the labware of a program are valid specifications: a constructor that refuses one leaves nothing to run
   {Cl("C20.accept", TRUE, ~tr.ctorfail)} \cup
@@ -95,7 +108,8 @@ ReplayRecs(T, ev) ==
 
 TrackedOps == {"aspirate", "dispense", "transfer", "distribute", "evo_aspirate", "evo_dispense"}
 \* raw pipetting records appended through the low level emitters are not tracked by any labware
-Untracked(ev) == ev.op \in {"emit", "rawemit"} /\ \E i \in 1..Len(ev.recs) : ev.recs[i].t \in {"A", "D", "R", "BA", "BD"}
+Untracked(ev) == \/ ev.op \in {"emit", "rawemit"} /\ \E i \in 1..Len(ev.recs) : ev.recs[i].t \in {"A", "D", "R", "BA", "BD"}
+                 \/ ev.op = "listedit"   \* the caller edited the record list: what the robot would do is the caller's business now
 
 PipRecs(recs) == SelectSeq(recs, LAMBDA r : r.t \in {"A", "D"})
 
@@ -116,6 +130,10 @@ Common(tr, T, ev) ==
     Cl("C04.model", ev.hasmodel /\ live,
        LET class(o) == IF o \in {"overflow", "underflow", "invalidop", "ok"} THEN o ELSE "rejected" IN
        class(ev.out) = class(ev.model.out) /\ (ev.out = "ok" => post.vol = ev.model.vol)),
+    \* the state can be asked for: volumes, compositions and history answer (a query that raises is logged as such)
+    Cl("C04.observable", TRUE, post.obs.vol),
+    Cl("C05.observable", F.comp, post.obs.comp),
+    Cl("C11.observable", TRUE, post.obs.hist),
     Cl("C04.frame", TRUE,
        \A k \in (1..NLw(tr)) \ part : post.vol[k] = vol[k] /\ pc[k] = comp[k] /\ post.hn[k] = hn[k]),
     Cl("C05.sane", F.comp /\ cok /\ ev.cs,
@@ -126,7 +144,7 @@ Common(tr, T, ev) ==
        \A k \in 1..NLw(tr) : CompNormalisedAll(post.vol[k], pc[k])),
     Cl("C09.wellformed", F.records /\ ev.recs # <<>>,
        \A i \in 1..Len(ev.recs) : ev.recs[i].t \in {"BA", "BD", "BW"} \/ WellFormed(ev.recs[i])),
-    Cl("C01.appendonly", ev.op \notin {"enter", "clear"}, ev.wprefix /\ ev.wlen = Len(wl) + Len(ev.recs)),
+    Cl("C01.appendonly", ev.op \notin {"enter", "clear", "listedit"}, ev.wprefix /\ ev.wlen = Len(wl) + Len(ev.recs)),
     Cl("C03.stepmax", F.records,
        \A i \in 1..Len(ev.recs) : ev.recs[i].t \in {"A", "D"} => ev.recs[i].cents <= T.wlmaxc),
     Cl("C03.replay", F.robot /\ live /\ ev.op \in TrackedOps,
@@ -135,14 +153,18 @@ Common(tr, T, ev) ==
     \* (the robot state is carried through the trace independently of what the twin claims)
     Cl("C03.replayall", F.robot /\ live /\ ev.op \in TrackedOps,
        Run(T, robv, EmptyComp(tr), ReplayRecs(T, ev)).err = ""),
-    Cl("C11.prefix", live /\ ev.out = "ok" /\ ev.op # "condense",
+    \* the history clauses are about every successful operation, whatever was rejected before it: none is scoped by `live`
+    Cl("C11.prefix", ev.out = "ok" /\ ev.op # "condense",
        \A k \in 1..NLw(tr) : post.hsame[k] >= hn[k] /\ post.hn[k] >= hn[k]),
     \* earlier entries are snapshots: no later successful operation changes or drops them, whatever happened in between
     \* (this clause is not scoped by `live`: it also holds after a rejected operation)
     Cl("C11.keeps", ev.out = "ok" /\ ev.op # "condense",
        \A k \in 1..NLw(tr) : post.hsame[k] >= hn[k]),
-    Cl("C11.newest", live /\ ev.out = "ok" /\ part # {} /\ ev.op \notin {"external", "rawemit"},
-       \A k \in part : post.last[k].s = post.vol[k])
+    \* (a transfer that moves nothing files the last recorded state again - it cannot make up for what a rejected multi-well
+    \* call left in the wells in front of the offending one, which no property pins: there the clause needs an unbroken run
+    \* of accepted operations; add / remove / aspirate / dispense file the volumes as they are, also when they move nothing)
+    Cl("C11.newest", ev.out = "ok" /\ part # {} /\ ev.op \notin {"external", "rawemit"},
+       \A k \in part : (live \/ ev.op \notin {"transfer", "distribute"} \/ post.vol[k] # vol[k]) => post.last[k].s = post.vol[k])
   }
 
 (***************************************************************************)
@@ -199,12 +221,16 @@ JudgeLabwareOp(tr, T, ev) ==
           /\ \A i \in 1..Len(pr.vol) : pr.vol[i] > 0 => pc[k][i] = pr.comp[i]),
     Cl("C05.removekeeps", F.comp /\ cok /\ ev.cs /\ ~isAdd,
        \A i \in 1..Len(post.vol[k]) : post.vol[k][i] > 0 => pc[k][i] = comp[k][i]),
-    Cl("C11.count", live /\ ev.out = "ok", post.hn[k] = hn[k] + 1),
-    Cl("C11.label", live /\ ev.out = "ok", LabelOK(post.last[k], a.label)),
+    Cl("C11.count", ev.out = "ok", post.hn[k] = hn[k] + 1),
+    Cl("C11.label", ev.out = "ok", LabelOK(post.last[k], a.label)),
     \* records of worklist aspirate / dispense
     Cl("C01.address", viaWl /\ F.records /\ ev.out = "ok" /\ valid,
        /\ \A i \in 1..Len(pips) : pips[i].t = tag /\ pips[i].rack = L.name
        /\ SameBag([i \in 1..Len(pips) |-> <<pips[i].pos, pips[i].cents>>], ExpectedAD(T, k, P))),
+    \* the numbering rule on its own (C08): the positions in the records are the device's numbers of the wells that were named
+    Cl("C08.emitted", viaWl /\ F.records /\ ev.out = "ok" /\ valid,
+       LET exp == ExpectedAD(T, k, P) IN
+       SameBag([i \in 1..Len(pips) |-> pips[i].pos], [i \in 1..Len(exp) |-> exp[i][1]])),
     \* two-decimal rounding: what the robot moves differs from the twin by at most half a hundredth per record
     Cl("C01.rounding", viaWl /\ T.millis /\ F.records /\ ev.out = "ok" /\ valid,
        \A i \in 1..Len(post.vol[k]) :
@@ -326,10 +352,10 @@ JudgeTransfer(tr, T, ev) ==
        IN \A nm \in names : Tot(vol, comp, nm) = Tot(post.vol, pc, nm)),
     Cl("C05.sourcekeeps", F.comp /\ cok /\ ev.cs /\ valid /\ ok /\ ~same,
        \A i \in 1..Len(post.vol[a.src]) : post.vol[a.src][i] > 0 => pc[a.src][i] = comp[a.src][i]),
-    Cl("C11.count", live /\ valid /\ ok /\ Moved(x),
+    Cl("C11.count", valid /\ ok /\ Moved(x),
        IF same THEN post.hn[a.src] = hn[a.src] + 1
        ELSE post.hn[a.src] = hn[a.src] + 1 /\ post.hn[a.dst] = hn[a.dst] + 1),
-    Cl("C11.label", live /\ valid /\ ok /\ Moved(x),
+    Cl("C11.label", valid /\ ok /\ Moved(x),
        \A k \in {a.src, a.dst} :
           LET e == post.last[k] IN
           IF extra = 0 THEN LabelOK(e, a.label)
@@ -370,6 +396,11 @@ JudgeDistribute(tr, T, ev) ==
     Cl("C01.rcount", F.records /\ T.dev # "base" /\ valid /\ ok, Len(rs) = 1 /\ Len(Body(ev.recs)) = 1),
     Cl("C01.rsrcrack", F.records /\ T.dev # "base" /\ valid /\ ok /\ Len(rs) = 1, rs[1].srack = T.lw[ks].name),
     Cl("C01.rsrc", F.records /\ T.dev # "base" /\ valid /\ ok /\ Len(rs) = 1, (rs[1].s1)..(rs[1].s2) = sps),
+    \* the numbering rule on its own (C08): destination range on both devices, source range in the EVO numbering (the Fluent
+    \* source range of a trough is the known finding recorded under C01.rsrc)
+    Cl("C08.rrange", F.records /\ T.dev # "base" /\ valid /\ ok /\ Len(rs) = 1 /\ distinctpos,
+       /\ rs[1].d1 = MinOf(dps) /\ rs[1].d2 = MaxOf(dps) /\ ((rs[1].d1)..(rs[1].d2)) \ Range(rs[1].excl) = dps
+       /\ (T.dev = "evo" => (rs[1].s1)..(rs[1].s2) = sps)),
     Cl("C01.rdst", F.records /\ T.dev # "base" /\ valid /\ ok /\ Len(rs) = 1 /\ distinctpos,
        /\ rs[1].drack = T.lw[kd].name
        /\ rs[1].d1 = MinOf(dps) /\ rs[1].d2 = MaxOf(dps)
@@ -390,9 +421,9 @@ JudgeDistribute(tr, T, ev) ==
        \A k \in 1..NLw(tr) : \A i \in 1..Len(post.vol[k]) : post.vol[k][i] > 0 => pc[k][i] = rb.comp[k][i]),
     Cl("C01.robotcomp", F.robot /\ F.comp /\ cok /\ ev.cs /\ live /\ T.dev # "base" /\ valid /\ ok /\ distinctpos /\ rb.err = "" /\ ~rb.unknown,
        \A k \in 1..NLw(tr) : \A i \in 1..Len(post.vol[k]) : post.vol[k][i] > 0 => pc[k][i] = rb.comp[k][i]),
-    Cl("C11.count", live /\ T.dev # "base" /\ valid /\ ok,
+    Cl("C11.count", T.dev # "base" /\ valid /\ ok,
        IF same THEN post.hn[ks] = hn[ks] + 1 ELSE post.hn[ks] = hn[ks] + 1 /\ post.hn[kd] = hn[kd] + 1),
-    Cl("C11.label", live /\ T.dev # "base" /\ valid /\ ok,
+    Cl("C11.label", T.dev # "base" /\ valid /\ ok,
        \A k \in {ks, kd} : LabelOK(post.last[k], a.label))
   }
 
@@ -574,8 +605,8 @@ JudgeEvo(tr, T, ev) ==
        /\ \A t \in (1..8) \ Range(tn) : c.vols[t] = 0),
     Cl("C03.evostep", Len(cmds) >= 1, \A t \in 1..8 : c.vols[t] <= T.wlmaxc),
     Cl("C09.comment", ok /\ a.labelok, CommentTexts(ev.recs) = (IF a.label.h THEN CommentRecords(a.label.lines) ELSE <<>>)),
-    Cl("C11.count", live /\ ok, post.hn[k] = hn[k] + 1),
-    Cl("C11.label", live /\ ok, LabelOK(post.last[k], a.label))
+    Cl("C11.count", ok, post.hn[k] = hn[k] + 1),
+    Cl("C11.label", ok, LabelOK(post.last[k], a.label))
   }
 
 JudgeEvoWash(tr, T, ev) ==
@@ -633,7 +664,7 @@ RowMajor(g, s) == [i \in 1..(g.rows * g.cols) |-> s[((i - 1) % g.cols) * g.rows 
 
 JudgeFullHist(tr, T, ev) ==
   LET post == ev.post IN {
-    Cl("C11.fullprefix", live /\ l > 1 /\ tr.events[l - 1].out = "ok" /\ ev.out = "ok" /\ ev.op # "condense",
+    Cl("C11.fullprefix", l > 1 /\ tr.events[l - 1].out = "ok" /\ ev.out = "ok" /\ ev.op # "condense",
        \A k \in 1..NLw(tr) :
           LET old == tr.events[l - 1].post.hist[k]  new == post.hist[k] IN
           Len(new) >= Len(old) /\ SubSeq(new, 1, Len(old)) = old),
@@ -684,6 +715,17 @@ JudgeHistApi(tr, T, ev) ==
 (***************************************************************************)
 CpLines(recs) == [i \in 1..Len(recs) |-> recs[i].cp]
 
+\* A worklist is a list of records and the caller may edit it like one (indices as in Python: a.i, a.j count from 0)
+EditList(w, a) ==
+  LET n == Len(w) IN
+  CASE a.kind = "pop" -> SubSeq(w, 1, n - 1)
+    [] a.kind = "pop0" -> SubSeq(w, 2, n)
+    [] a.kind = "reverse" -> [k \in 1..n |-> w[n + 1 - k]]
+    [] a.kind = "insert" -> SubSeq(w, 1, a.i) \o <<a.rec>> \o SubSeq(w, a.i + 1, n)
+    [] a.kind = "setitem" -> [k \in 1..n |-> IF k = a.i + 1 THEN a.rec ELSE w[k]]
+    [] a.kind = "delslice" -> SubSeq(w, 1, a.i) \o SubSeq(w, a.j + 1, n)
+    [] OTHER -> w
+
 JudgeFile(tr, T, ev) ==
   LET a == ev.a  lines == CpLines(wl) IN {
     Cl("C17.content", ev.op \in {"save", "exit"} /\ a.ext = "gwl" /\ a.haspath,
@@ -700,6 +742,7 @@ JudgeFile(tr, T, ev) ==
     Cl("C17.noext", ev.op = "save" /\ a.ext = "none", ev.out # "ok" /\ ~ev.file.exists),
     Cl("C17.nopath", ev.op = "exit" /\ ~a.haspath, ev.out = "ok" /\ ~ev.file.exists),
     Cl("C17.enter", ev.op \in {"enter", "clear"}, ev.out = "ok" /\ ev.wlen = 0),
+    Cl("C17.listedit", ev.op = "listedit", ev.out = "ok" /\ ev.wlen = Len(EditList(wl, a))),
     Cl("C17.str", ev.op = "str", ev.out = "ok" /\ ev.strlines = lines),
     Cl("C17.unchanged", ev.op \in {"save", "exit", "str"}, ev.recs = <<>> /\ ev.wlen = Len(wl))
   }
@@ -710,7 +753,7 @@ JudgeEvent(tr, T, ev) ==
   \cup (CASE ev.op \in {"add", "remove", "aspirate", "dispense"} -> JudgeLabwareOp(tr, T, ev)
           [] ev.op = "transfer" -> JudgeTransfer(tr, T, ev)
           [] ev.op = "distribute" -> JudgeDistribute(tr, T, ev)
-          [] ev.op \in {"save", "exit", "enter", "str", "clear"} -> JudgeFile(tr, T, ev)
+          [] ev.op \in {"save", "exit", "enter", "str", "clear", "listedit"} -> JudgeFile(tr, T, ev)
           [] ev.op = "emit" -> JudgeEmit(tr, T, ev)
           [] ev.op \in {"evo_aspirate", "evo_dispense"} -> JudgeEvo(tr, T, ev)
           [] ev.op = "evo_wash" -> JudgeEvoWash(tr, T, ev)
@@ -741,7 +784,7 @@ StartTrace ==
   /\ IF tid = 0 THEN TRUE ELSE l > Len(Traces[tid].events)
   /\ tid < Len(Traces)
   /\ LET t == tid + 1  tr == Traces[t]  s == InitOf(t) IN
-     /\ Judge([tid |-> t, l |-> 0, id |-> tr.id, op |-> "init"], JudgeInit(tr))
+     /\ Judge([tid |-> t, l |-> 0, id |-> tr.id, op |-> "init"], JudgeInit(tr) \cup JudgeUnobserved(tr))
      /\ tid' = t /\ l' = 1 /\ vol' = s.vol /\ comp' = s.comp /\ hn' = s.hn /\ wl' = <<>> /\ live' = TRUE /\ cok' = TRUE /\ robv' = s.vol
      /\ cfg' = CfgOf(tr)
 
@@ -751,7 +794,9 @@ Step ==
      /\ Judge([tid |-> tid, l |-> l, id |-> tr.id, op |-> ev.op], JudgeEvent(tr, T, ev))
      /\ l' = l + 1 /\ tid' = tid
      /\ vol' = ev.post.vol /\ comp' = CompOf(ev.post.comp) /\ hn' = ev.post.hn
-     /\ wl' = IF ev.op \in {"enter", "clear"} THEN <<>> ELSE wl \o ev.recs   \* (a worklist is a list: the caller may clear it)
+     /\ wl' = IF ev.op \in {"enter", "clear"} THEN <<>>    \* (a worklist is a list: the caller may clear it ...)
+              ELSE IF ev.op = "listedit" THEN (IF ev.out = "ok" THEN EditList(wl, ev.a) ELSE wl)   \* (... or edit it)
+              ELSE wl \o ev.recs
      /\ live' = (live /\ ev.out = "ok" /\ ~Untracked(ev))
      /\ cok' = (cok /\ ev.cs)
      /\ cfg' = IF ev.op = "setconfig" /\ ev.out = "ok"
